@@ -39,6 +39,8 @@ func init() {
 			{Name: "stress", N: func(tier string) int { return len(stressList(tier)) }, Gen: c01GenStress, Eval: c01Eval},
 			{Name: "options", N: constN(1500, 40000), Gen: c01GenOptions, Eval: c01Eval},
 			{Name: "models", N: constN(6000, 300000), Gen: genModelCase, Eval: c01EvalModel},
+			{Name: "regex-bodies", Stream: c01StreamRegex, Eval: c01Eval},
+			{Name: "schema-bodies", Stream: c01StreamSchemaBodies, Eval: c01Eval},
 		},
 		Floors: map[string]int64{"accepted": 500, "rejected": 5000},
 	})
@@ -530,4 +532,56 @@ func c01EvalModel(t *fw.T, c *fw.Case) {
 	}
 	c.Docs = []run.Doc{run.Single(text)}
 	c01Eval(t, c)
+}
+
+
+// ---- bodies handed to the schema library: regular expressions and small JSight schemas ----
+
+var c01RegexAtoms = []string{"a", "[", "]", "^", "-", "z", "\\x00", "\\x{10FFFF}", "(", ")", "|", "*", "+", "?", "{0}", "{2,1}", "{1,2}", ".", "\\", "$", "\\d", "\\pL", "[^\\x00-\\x{10FFFF}]", "[a-z]", "(?i)", "\\b", "/", "é", "\\Q", "[[:alpha:]]"}
+
+// c01StreamRegex: every regular expression of up to 3 (thorough 4) atoms as the body of a regex TYPE, a regex
+// response and inside a type that a JSight schema references.
+func c01StreamRegex(t *fw.T, shard, nshards int, emit func(*fw.Case)) {
+	n := 0
+	enumerate(c01RegexAtoms, t.Pick(3, 4), func(s string) {
+		n++
+		if n%nshards != shard {
+			emit(nil)
+			return
+		}
+		var doc string
+		switch n % 3 {
+		case 0:
+			doc = "JSIGHT 0.3\nTYPE @r regex\n/" + s + "/\n"
+		case 1:
+			doc = "JSIGHT 0.3\nGET /a\n  200 regex\n  /" + s + "/\n"
+		default:
+			doc = "JSIGHT 0.3\nTYPE @r regex\n/" + s + "/\nTYPE @u\n{\"k\": @r, \"l\": [@r]}\nGET /a\n  200 @u\n"
+		}
+		emit(oneDocCase([]byte(doc), "", "regex body"))
+	})
+}
+
+var c01SchemaAtoms = []string{"{", "}", "[", "]", "\"k\"", ":", ",", "1", "-", "1.5", "\"s\"", "true", "null", "@t", "|", "//", "{min: 1}", "{type: \"any\"}", "{or: [", "{enum: [", "{allOf: \"@t\"}", "{regex: \"[\"}", "{optional: true}", "/*", "*/", "\n", " ", "#", "@t :", "{precision: 0}", "{const: true}", "{additionalProperties: \"@t\"}"}
+
+// c01StreamSchemaBodies: every sequence of up to 3 (thorough 4) schema tokens as the body of a TYPE next to a type @t.
+func c01StreamSchemaBodies(t *fw.T, shard, nshards int, emit func(*fw.Case)) {
+	n := 0
+	enumerate(c01SchemaAtoms, t.Pick(3, 4), func(s string) {
+		n++
+		if n%nshards != shard {
+			emit(nil)
+			return
+		}
+		var doc string
+		switch n % 3 {
+		case 0:
+			doc = "JSIGHT 0.3\nTYPE @t\n{\"a\": 1}\nTYPE @x\n" + s + "\n"
+		case 1:
+			doc = "JSIGHT 0.3\nTYPE @t\n\"str\"\nGET /a\n  200\n  " + s + "\n"
+		default:
+			doc = "JSIGHT 0.3\nTYPE @t\n[1]\nPOST /a/{id}\n  Path\n  {\"id\": " + s + "}\n  Request\n    Headers\n    {\"h\": " + s + "}\n    Body any\n  200 any\n"
+		}
+		emit(oneDocCase([]byte(doc), "", "schema body"))
+	})
 }
